@@ -153,8 +153,35 @@ def collect(pid, tier, seed, d, binp):
                 scheduling_stalls_discarded=stalls)
 
 
+# vacuity control: the histories judged by a check must have exercised the situations its property is about
+REQUIRED_HITS = {
+    "C02": {"engine": ["retried", "fallback"], "batch": ["retried"]},
+    "C03": {"engine": ["multiNode"]},
+    "C04": {"engine": ["failedRun", "multiNode"]},
+    "C05": {"engine": ["cancelled", "multiNode"]},
+    "C10": {"engine": ["nested"]},
+    "C17": {"engine": ["funcNode", "eres"]},
+    "C18": {"engine": ["emptyAct"], "batch": ["emptyBatch"]},
+    "C06": {"batch": ["concurrent", "overlapped", "failedItem"]},
+    "C07": {"batch": ["retried", "fallback", "failedItem", "overlapped"]},
+    "C08": {"batch": ["overlapped"], "pool": ["overlapped", "nonPositive"]},
+    "C09": {"batch": ["stopmode", "failedItem", "skipped"]},
+    "C11": {"batch": ["cancelled", "concurrent"]},
+    "C12": {"pool": ["multiSubmitter", "multiRound", "beyondQueue", "overlapped", "nonPositive"]},
+    "C13": {"storeconc": ["overlapping_operations"]},
+    "C14": {"store": ["snapshots", "mutated", "merges", "clears", "nils", "long"]},
+    "C20": {"timing": ["waits_between_attempts", "cancellations_during_wait", "long_wait_scenarios"]},
+}
+
+
 def finish(pid, tier, seed, d, t0, parts, level="model_checking"):
     """Merge the results of one or several families into the evidence file and the exit code."""
+    for fam, keys in REQUIRED_HITS.get(pid, {}).items():
+        for name, p in parts:
+            if name == fam:
+                missing = [k for k in keys if not p["hits"].get(k)]
+                if missing:
+                    raise ToolFailure("vacuous run: no %s history of this run exercised %s" % (fam, ", ".join(missing)))
     violations, known_hits = [], {}
     cov = {"states": 0, "transitions": 0, "traces_validated_against_impl": 0, "events_validated": 0,
            "behaviours_exported_by_tlc_and_replayed": 0, "replayed_histories_differing_from_spec_behaviour": 0,
